@@ -104,7 +104,7 @@ def rule_r3(ctx) -> RuleResult:
         "parser.magic_fn": ctx.fn("parser.magic_fn"),
         X.ARGS: X.main_loop(ctx.fn(X.ARGS)),
         X.RECURSE: X.main_loop(ctx.fn(X.RECURSE)),
-        "core.Wtp._finalize_expand.magic_repl": ctx.fn("core.Wtp._finalize_expand.magic_repl"),
+        X.cookie_replacer(ctx)[0]: X.cookie_replacer(ctx)[1],
     }
     for name, node in consumers.items():
         arms = {k for k in X.kind_arms(node, ctx=ctx) if not k.startswith("%")}
